@@ -32,7 +32,7 @@ def required(tier):
     b = {f'profile:{p}': 20 for p in PROFILES}
     b.update({'smear:on': 100, 'smear:off': 100, 'drift:neg': 100, 'drift:zero': 20, 'drift:pos': 100,
               'width:sub-channel': 50, 'start:outside': 10, 'start:edge': 10, 'units:quantity': 50,
-              'smear:drift-exact-multiple-of-unit': 40, 'start:edge-entry': 40})
+              'smear:drift-exact-multiple-of-unit': 40, 'start:edge-entry': 40, 'start:narrow-off-centre': 200})
     b.update({'level-type:' + t: 100 for t in set(LEVEL_TYPES)})
     b.update({'helper-called-twice': 300, 'helper-called-twice:out-of-band': 50})
     return {'buckets': b, 'counters': {'mandatory_pixels': 5000}, 'checks': 500, 'nontrivial': 200}
@@ -70,6 +70,24 @@ def gen_cases(seed, tier):
             Tn = g['tchans']
             out_by = float(rng.uniform(1.6, abs(d) - 0.3))          # distance of the last centre from the edge channel
             x = (-out_by - d * (Tn - 1)) if d > 0 else (F - 1 + out_by - d * (Tn - 1))
+        if common.stratum(i, 138, 6) == 0 and sc != 'edge-entry' and F >= 12:
+            # narrow signal, start well off its channel centre, fractional drift away from the centre side: the track ends on a
+            # channel that integer truncation of the helper's bounding box is most likely to leave out
+            sc = 'narrow-off-centre'
+            w = float(rng.uniform(0.05, 0.3))
+            delta = float(rng.uniform(min(1.5 * w, 0.45), 0.49))
+            side = -1.0 if rng.random() < 0.7 else 1.0
+            Tn = g['tchans']
+            dmag = float(common.pick(rng, [0.25, 0.3, 0.6, 0.77, 1.21, float(rng.uniform(0.02, 2.0))]))
+            if Tn > 1 and rng.random() < 0.5:
+                # total drift over the frame with a chosen fractional part
+                dmag = (int(rng.integers(0, 2 * Tn)) + float(rng.uniform(0.02, 0.98))) / (Tn - 1) if Tn > 1 else dmag
+                dmag = min(dmag, 3.9)
+            d = side * dmag
+            k0 = int(rng.integers(int(F * 0.4), int(F * 0.6) + 1)) if side * (Tn - 1) * dmag > -0.4 * F and abs((Tn - 1) * dmag) < 0.35 * F \
+                else (F - 3 if side < 0 else 2)
+            x = k0 + side * delta
+            smear = bool(smear and rng.random() < 0.3)
         cases.append(dict(geom=g, profile=prof, smear=smear, d=d, w=w, x=x, start_class=sc,
                           level=float(common.pick(rng, [1.0, 10.0, 250.0])), units=bool(rng.integers(2)), level_type=common.stratum(i, 137, LEVEL_TYPES),
                           sub=int(rng.integers(2 ** 31))))
